@@ -514,3 +514,200 @@ class ExecuteFields(Contract):
 
 
 CONTRACTS.append(ExecuteFields())
+
+
+O = 'tartiflette/coercers/outputs/'
+
+
+# ---- resolve_field, abstract types, default resolver (C01: "completed according to the declared type and, for abstract types, the runtime object
+# type chosen by the most specific type resolver"; "each resolver is called exactly once per collected response key and parent object")
+class GetTypeResolver(Contract):
+    """get_type_resolver: a resolver registered for this very field wins over the abstract type's own, which wins over the schema default"""
+    key = 'tartiflette/types/type.py::GraphQLAbstractType.get_type_resolver'
+    property_ids = ('C01',)
+    params = ['self', 'field_name', 'default_type_resolver']
+    self_class = 'GraphQLAbstractType'
+
+    def pre(self, A, st):
+        me = A['self']
+        return [('self', z3.And(V.oref(me) >= 0, V.is_Dict(attr0(me, '_fields_type_resolvers')), z3.Or(attr0(me, 'type_resolver') == V.None_, V.is_Fun(attr0(me, 'type_resolver'))))),
+                ('field_name', V.is_Str(A['field_name'])), ('default', V.is_Fun(A['default_type_resolver']))]
+
+    def post(self, A, st0, out):
+        if out.kind == 'raise':
+            return never_raises(out)
+        me = A['self']
+        own = lookup(V.ditems(attr0(me, '_fields_type_resolvers')), A['field_name'])
+        return [('most_specific_type_resolver', out.value == z3.If(own != V.Missing, own, z3.If(attr0(me, 'type_resolver') != V.None_, attr0(me, 'type_resolver'), A['default_type_resolver'])))]
+
+
+class ResolveField(Contract):
+    """resolve_field: one ResolveInfo for this field; the resolver stage runs once on (context, definition, nodes, resolver, source, info); its
+    outcome is completed once against the DECLARED type of the field with the baked output coercer; that completion is the result"""
+    key = 'tartiflette/resolver/factory.py::resolve_field'
+    property_ids = ('C01', 'C13')
+    params = ['execution_context', 'parent_type', 'source', 'field_nodes', 'path', 'is_introspection_context', 'field_definition', 'resolver', 'output_coercer']
+
+    def args(self, en, names):
+        self.A = super().args(en, names)
+        self.info, self.resolved, self.completed = fresh('resolve_info'), fresh('resolved_or_error'), fresh('completed')
+        self.completion_raises = fresh('completion_raises', BoolS)
+        return self.A
+
+    def pre(self, A, st):
+        fd = A['field_definition']
+        return [('definition', z3.And(exact(fd, 'GraphQLField'), V.oref(fd) >= 0))]
+
+    def ghost0(self, A):
+        return {'info_args': V.Missing, 'resolve_calls': z3.IntVal(0), 'resolve_args': V.Missing, 'complete_calls': z3.IntVal(0), 'complete_args': V.Missing}
+
+    @property
+    def callee_models(self):
+        def info(en, st, a, kw):
+            return [(st.put_ghost('info_args', V.Tuple(mklist(*[en.read(x, st) for x in a]))), self.info)]
+
+        def resolve(en, st, a, kw):
+            return [(st.put_ghost('resolve_calls', st.ghost['resolve_calls'] + 1).put_ghost('resolve_args', V.Tuple(mklist(*[en.read(x, st) for x in a]))), self.resolved)]
+
+        def complete(en, st, a, kw):
+            st = st.put_ghost('complete_calls', st.ghost['complete_calls'] + 1).put_ghost('complete_args', V.Tuple(mklist(*[en.read(x, st) for x in a])))
+            e = V.Obj(fresh('ecls', IntS), fresh('eref', IntS))
+            return en.branches(st, [(z3.Not(self.completion_raises), self.completed), (z3.And(self.completion_raises, exact(e, 'MultipleException'), V.oref(e) >= 0), Raise(e))])
+        return {'tartiflette/execution/types.py::build_resolve_info': info,
+                'tartiflette/resolver/factory.py::resolve_field_value_or_error': resolve,
+                'tartiflette/coercers/outputs/common.py::complete_value_catching_error': complete}
+
+    def post(self, A, st0, out):
+        g = out.st.ghost
+        common = [('info_for_this_field', g['info_args'] == V.Tuple(mklist(A['execution_context'], A['field_definition'], A['field_nodes'], A['parent_type'], A['path'], A['is_introspection_context']))),
+                  ('resolver_stage_once_with_parent_value', z3.And(g['resolve_calls'] == 1, g['resolve_args'] == V.Tuple(mklist(A['execution_context'], A['field_definition'], A['field_nodes'],
+                                                                                                                                 A['resolver'], A['source'], self.info)))),
+                  ('completed_once_against_the_declared_type', z3.And(g['complete_calls'] == 1,
+                      g['complete_args'] == V.Tuple(mklist(self.resolved, self.info, A['execution_context'], A['field_nodes'], A['path'], attr0(A['field_definition'], 'graphql_type'), A['output_coercer']))))]
+        if out.kind == 'raise':
+            return common + [('only_completion_propagates', self.completion_raises)]
+        return common + [('completion_is_the_result', out.value == self.completed)]
+
+
+IsPossible = z3.Function('AbstractTypeHasPossibleType', V, V, BoolS)
+
+
+class EnsureValidRuntimeType(Contract):
+    """ensure_valid_runtime_type: a name is looked up in the schema; the result is returned only if it is an OBJECT type that the abstract type
+    lists as possible; anything else is a located error"""
+    key = O + 'abstract_coercer.py::ensure_valid_runtime_type'
+    property_ids = ('C01', 'C02')
+    params = ['runtime_type_or_name', 'execution_context', 'return_type', 'field_nodes', 'info', 'result']
+
+    def args(self, en, names):
+        self.A = super().args(en, names)
+        return self.A
+
+    def pre(self, A, st):
+        ctx, rt, x = A['execution_context'], A['return_type'], A['runtime_type_or_name']
+        sch = attr0(ctx, 'schema')
+        return [('context', z3.And(exact(ctx, 'ExecutionContext'), V.oref(ctx) >= 0, exact(sch, 'GraphQLSchema'), V.oref(sch) >= 0, V.is_Dict(attr0(sch, 'type_definitions')),
+                                   AllSchemaTypes(V.ditems(attr0(sch, 'type_definitions'))))),
+                ('abstract_type', z3.And(z3.Or(exact(rt, 'GraphQLInterfaceType'), exact(rt, 'GraphQLUnionType')), V.oref(rt) >= 0, V.is_Str(attr0(rt, 'name')))),
+                ('field_nodes', node_list(A['field_nodes'])), ('info', info_wf(A['info'])),
+                ('answer_of_the_type_resolver', z3.Or(V.is_Str(x), x == V.None_, z3.And(inst(x, 'GraphQLType'), V.oref(x) >= 0, V.is_Str(attr0(x, 'name')))))]
+
+    def getattr_hook(self, en, st, v, attr):
+        if attr == 'is_possible_type' and z3.eq(v, self.A['return_type']):
+            return [(st, PyFunc('is_possible_type', lambda en, s, a, kw: [(s, V.Bool(IsPossible(v, en.read(a[0], s))))]))]
+        return None
+
+    def runtime(self, A):
+        x = A['runtime_type_or_name']
+        found = lookup(V.ditems(attr0(attr0(A['execution_context'], 'schema'), 'type_definitions')), x)
+        return z3.If(V.is_Str(x), z3.If(found != V.Missing, found, x), x)
+
+    def post(self, A, st0, out):
+        t = self.runtime(A)
+        good = z3.And(exact(t, 'GraphQLObjectType'), IsPossible(A['return_type'], t))
+        if out.kind == 'raise':
+            return [('refused_only_when_not_a_possible_object_type', z3.And(z3.Not(good), inst(out.value, 'TartifletteError')))]
+        return [('a_possible_object_type', z3.And(good, out.value == t))]
+
+
+AllSchemaTypes = ForallList('schema_type_entry_named', lambda p: z3.And(V.is_Pair(p), V.is_Str(V.fst(p)), inst(V.snd(p), 'GraphQLType'), V.oref(V.snd(p)) >= 0,
+                                                                        V.is_Str(attr0(V.snd(p), 'name'))))
+
+
+class AbstractCoercerBody(Contract):
+    """abstract_coercer: the most specific type resolver is asked once about the resolved value; the validated runtime OBJECT type's own output
+    hooks run once on the value; the hooked value is completed as an object of that runtime type"""
+    key = O + 'abstract_coercer.py::abstract_coercer'
+    decorators = ['null_coercer_wrapper']
+    property_ids = ('C01', 'C13')
+    params = ['result', 'info', 'execution_context', 'field_nodes', 'path', 'abstract_type']
+
+    def args(self, en, names):
+        self.A = super().args(en, names)
+        self.tr, self.answer, self.rt, self.hooked, self.completed = fresh('type_resolver'), fresh('type_answer'), fresh('runtime_type'), fresh('hooked_value'), fresh('completed_object')
+        self.f_tr, self.f_valid, self.f_hook, self.f_complete = [fresh(n, BoolS) for n in ('type_resolver_fails', 'runtime_type_refused', 'hook_fails', 'completion_fails')]
+        return self.A
+
+    def pre(self, A, st):
+        ctx, t = A['execution_context'], A['abstract_type']
+        return [('context', z3.And(exact(ctx, 'ExecutionContext'), V.oref(ctx) >= 0, exact(attr0(ctx, 'schema'), 'GraphQLSchema'), V.oref(attr0(ctx, 'schema')) >= 0)),
+                ('abstract_type', z3.And(inst(t, 'GraphQLAbstractType'), V.oref(t) >= 0)), ('info', info_wf(A['info'])),
+                ('symbols', z3.And(V.is_Fun(self.tr), exact(self.rt, 'GraphQLObjectType'), V.oref(self.rt) >= 0, V.is_Fun(attr0(self.rt, 'pre_output_coercion_directives')),
+                                   attr0(self.rt, 'pre_output_coercion_directives') != self.tr))]
+
+    def ghost0(self, A):
+        return {'gtr_args': V.Missing, 'tr_calls': z3.IntVal(0), 'tr_args': V.Missing, 'valid_args': V.Missing, 'hook_calls': z3.IntVal(0), 'hook_args': V.Missing,
+                'complete_calls': z3.IntVal(0), 'complete_args': V.Missing}
+
+    def _exc(self):
+        e = V.Obj(fresh('ecls', IntS), fresh('eref', IntS))
+        return e, z3.And(inst(e, 'Exception'), V.oref(e) >= 0)
+
+    def getattr_hook(self, en, st, v, attr):
+        if attr == 'get_type_resolver' and z3.eq(v, self.A['abstract_type']):
+            def gtr(en, s, a, kw):
+                return [(s.put_ghost('gtr_args', V.Tuple(mklist(*[en.read(x, s) for x in a[1:]]))), self.tr)]      # a[0] is the f-string (opaque text)
+            return [(st, PyFunc('get_type_resolver', gtr))]
+        return None
+
+    @property
+    def callee_models(self):
+        def valid(en, st, a, kw):
+            e, wf = self._exc()
+            st = st.put_ghost('valid_args', V.Tuple(mklist(*[en.read(x, st) for x in a])))
+            return en.branches(st, [(z3.Not(self.f_valid), self.rt), (z3.And(self.f_valid, wf), Raise(e))])
+
+        def complete(en, st, a, kw):
+            e, wf = self._exc()
+            st = st.put_ghost('complete_calls', st.ghost['complete_calls'] + 1).put_ghost('complete_args', V.Tuple(mklist(*[en.read(x, st) for x in a])))
+            return en.branches(st, [(z3.Not(self.f_complete), self.completed), (z3.And(self.f_complete, wf), Raise(e))])
+        return {O + 'abstract_coercer.py::ensure_valid_runtime_type': valid, O + 'common.py::complete_object_value': complete}
+
+    def call_model(self, en, st, f, a, kw):
+        if z3.eq(f, self.tr):
+            e, wf = self._exc()
+            st = st.put_ghost('tr_calls', st.ghost['tr_calls'] + 1).put_ghost('tr_args', V.Tuple(mklist(*[en.read(x, st) for x in a])))
+            return en.branches(st, [(z3.Not(self.f_tr), self.answer), (z3.And(self.f_tr, wf), Raise(e))])
+        if z3.eq(z3.simplify(f), z3.simplify(attr0(self.rt, 'pre_output_coercion_directives'))):
+            e, wf = self._exc()
+            ok = len(a) == 3 and set(kw) == {'context_coercer'}
+            rec = V.Tuple(mklist(*[en.read(x, st) for x in a], en.read(kw['context_coercer'], st))) if ok else V.Missing
+            st = st.put_ghost('hook_calls', st.ghost['hook_calls'] + 1).put_ghost('hook_args', rec)
+            return en.branches(st, [(z3.Not(self.f_hook), self.hooked), (z3.And(self.f_hook, wf), Raise(e))])
+        return None
+
+    def post(self, A, st0, out):
+        g, ctx = out.st.ghost, A['execution_context']
+        uctx = attr0(ctx, 'context')
+        asked = [('most_specific_resolver_is_looked_up', g['gtr_args'] == V.Tuple(mklist(attr0(attr0(ctx, 'schema'), 'default_type_resolver')))),
+                 ('type_resolver_asked_once_about_the_value', z3.And(g['tr_calls'] == 1, g['tr_args'] == V.Tuple(mklist(A['result'], uctx, A['info'], A['abstract_type']))))]
+        if out.kind == 'raise':
+            return asked + [('only_a_stage_failure_propagates', z3.Or(self.f_tr, self.f_valid, self.f_hook, self.f_complete)),
+                            ('nothing_completed_without_a_valid_runtime_type', z3.Implies(z3.Or(self.f_tr, self.f_valid), z3.And(g['hook_calls'] == 0, g['complete_calls'] == 0)))]
+        return asked + [('its_answer_is_validated', g['valid_args'] == V.Tuple(mklist(self.answer, ctx, A['abstract_type'], A['field_nodes'], A['info'], A['result']))),
+                        ('runtime_type_hooks_once_on_the_value', z3.And(g['hook_calls'] == 1, g['hook_args'] == V.Tuple(mklist(A['result'], uctx, A['info'], uctx)))),
+                        ('completed_as_an_object_of_the_runtime_type', z3.And(g['complete_calls'] == 1, out.value == self.completed,
+                                                                               g['complete_args'] == V.Tuple(mklist(self.hooked, A['info'], ctx, A['field_nodes'], A['path'], self.rt))))]
+
+
+CONTRACTS += [GetTypeResolver(), ResolveField(), EnsureValidRuntimeType(), AbstractCoercerBody()]
